@@ -212,8 +212,8 @@ theorem angleVec_cells (n : List Nat) (f : CF) (v : Val) (vec : CF) (valid : NDA
       show (f.valid.get i && o.valid.get i) = _
       rw [(hf.2.2 i hi).2, (ho.2.2 i hi).2]
   | raw od =>
-    have hcv : cv = rawCell od := hv.1
-    have hvv : vv = fun _ => true := hv.2
+    have hcv : ∀ i, cv i = rawCell od i := hv.1
+    have hvv : ∀ i, vv i = true := hv.2
     have hokk := hok od rfl
     cases od with
     | num z k np =>
@@ -229,9 +229,9 @@ theorem angleVec_cells (n : List Nat) (f : CF) (v : Val) (vec : CF) (valid : NDA
           subst ha; subst hb
           obtain ⟨_, _, hc⟩ := mkField_num_cells _ _ _ _ _ hmk
           rw [hf.2.1, h1] at hc
-          refine ⟨⟨_, by rw [hcv]; exact hc⟩, hf.1.2.1, ?_⟩
+          refine ⟨⟨_, hc.congr (fun i => by rw [hcv i]; rfl) (fun _ => rfl)⟩, hf.1.2.1, ?_⟩
           intro i hi
-          rw [(hf.2.2 i hi).2, hvv]; simp
+          rw [(hf.2.2 i hi).2, hvv i]; simp
       · cases h
     | arr a k np =>
       simp only [angleVec] at h
@@ -245,9 +245,9 @@ theorem angleVec_cells (n : List Nat) (f : CF) (v : Val) (vec : CF) (valid : NDA
         have hne : a.shape ≠ f.mesh.n := by rw [hf.2.1]; exact hokk
         obtain ⟨_, _, _, hc⟩ := mkField_arr_cells _ _ _ _ _ hne hmk
         rw [hf.2.1] at hc
-        refine ⟨⟨_, by rw [hcv]; exact hc⟩, hf.1.2.1, ?_⟩
+        refine ⟨⟨_, hc.congr (fun i => by rw [hcv i]; rfl) (fun _ => rfl)⟩, hf.1.2.1, ?_⟩
         intro i hi
-        rw [(hf.2.2 i hi).2, hvv]; simp
+        rw [(hf.2.2 i hi).2, hvv i]; simp
 
 theorem angleOp_cells (sq acos : Rat → Rat) (n : List Nat) (f g : CF) (v : Val)
     (cf cv : List Nat → List GQ) (vf vv : List Nat → Bool)
